@@ -271,7 +271,7 @@ fn c08_q_rangemap_get_fixed2() {
     std::mem::forget(m);
 }
 
-/// F: memory_range() of the range-bearing types: MinidumpModule, MinidumpUnloadedModule, MinidumpMemoryBase, StackInfoWin, StackInfoCfi, Function
+/// F: memory_range() of the range-bearing types: MinidumpModule, MinidumpUnloadedModule, MinidumpMemoryBase, MinidumpMemoryInfo, StackInfoWin, StackInfoCfi, Function
 /// I: base address (u64) and size (u32/u64) symbolic
 /// B: one entry each
 /// O: None iff size == 0 or base+size overflows 2^64; Some(r) => r.start == base <= r.end == base+size-1
@@ -293,7 +293,42 @@ fn c08_q_memory_range_constructors() {
     // minidump memory region
     let mem = minidump::MinidumpMemoryBase { desc: minidump::format::MINIDUMP_MEMORY_DESCRIPTOR64 { start_of_memory_range: base, data_size: size64 }, base_address: base, size: size64, bytes: &[], endian: scroll::Endian::Little };
     assert!(mem.memory_range().map(|r| (r.start, r.end)) == want64);
+    // STACK CFI record, loaded / unloaded module, memory-info region
+    let cfi = bs::StackInfoCfi { init: bs::CfiRules { address: base, rules: String::new() }, size: size32, add_rules: Vec::new() };
+    assert!(cfi.memory_range().map(|r| (r.start, r.end)) == want32);
+    std::mem::forget(cfi);
+    let m = minidump::MinidumpModule::new(base, size32, "m");
+    assert!(minidump::verif::module_memory_range(&m).map(|r| (r.start, r.end)) == want32);
+    std::mem::forget(m);
+    let u = minidump::MinidumpUnloadedModule::new(base, size32, "m");
+    assert!(minidump::verif::unloaded_module_memory_range(&u).map(|r| (r.start, r.end)) == want32);
+    std::mem::forget(u);
+    let mut mi: minidump::MinidumpMemoryInfo = unsafe { std::mem::zeroed() };
+    mi.raw.base_address = base;
+    mi.raw.region_size = size64;
+    assert!(mi.memory_range().map(|r| (r.start, r.end)) == want64);
     kani::cover!(want32.is_some() && base > u64::MAX - 16, "range at the top of the address space accepted");
+}
+
+/// F: memory_range() of the symbol-file records the parser files by address: Function, StackInfoWin, StackInfoCfi (the same constructors as above, registered under C09: a range with end < start makes the parser's range-map build panic)
+/// I: record address (u64) and size (u32) symbolic
+/// B: one record each
+/// O: None iff size == 0 or address+size overflows 2^64; Some(r) => r.start == address <= r.end == address+size-1
+#[kani::proof]
+#[kani::unwind(4)]
+fn c09_q_symbol_record_ranges() {
+    use breakpad_symbols::verif as bs;
+    let base: u64 = kani::any();
+    let size32: u32 = kani::any();
+    let want32 = if size32 == 0 { None } else { base.checked_add(size32 as u64).map(|e| (base, e - 1)) };
+    let swin = bs::StackInfoWin { address: base, size: size32, prologue_size: 0, epilogue_size: 0, parameter_size: 0, saved_register_size: 0, local_size: 0, max_stack_size: 0, program_string_or_base_pointer: bs::WinStackThing::AllocatesBasePointer(false) };
+    assert!(swin.memory_range().map(|r| (r.start, r.end)) == want32);
+    let f = bs::Function { address: base, size: size32, parameter_size: 0, name: String::new(), lines: RangeMap::new(), inlinees: Vec::new() };
+    assert!(f.memory_range().map(|r| (r.start, r.end)) == want32);
+    std::mem::forget(f);
+    let cfi = bs::StackInfoCfi { init: bs::CfiRules { address: base, rules: String::new() }, size: size32, add_rules: Vec::new() };
+    assert!(cfi.memory_range().map(|r| (r.start, r.end)) == want32);
+    std::mem::forget(cfi);
 }
 
 /// Reachability witness for the recorder family.
